@@ -192,6 +192,22 @@ def fold_const(prog, module, expr, env=None):
     return None
 
 
+def wrapper_branch(st, fname, data):
+    """`if <type test on data>: return fname(<data or bytes(data)>, ...)` with no else"""
+    if st.orelse or len(st.body) != 1 or not isinstance(st.body[0], ast.Return):
+        return False
+    call = st.body[0].value
+    if not (isinstance(call, ast.Call) and isinstance(call.func, ast.Name) and call.func.id == fname and call.args):
+        return False
+    names = {n.id for n in ast.walk(st.test) if isinstance(n, ast.Name)}
+    if not names <= {data, 'isinstance', 'type', 'bytes', 'bytearray', 'memoryview'}:
+        return False
+    a0 = call.args[0]
+    same_data = (isinstance(a0, ast.Name) and a0.id == data) or \
+        (isinstance(a0, ast.Call) and isinstance(a0.func, ast.Name) and a0.func.id in ('bytes', 'bytearray') and len(a0.args) == 1 and isinstance(a0.args[0], ast.Name) and a0.args[0].id == data)
+    return same_data
+
+
 def int_list(node):
     if isinstance(node, (ast.List, ast.Tuple)) and all(isinstance(e, ast.Constant) and isinstance(e.value, int) for e in node.elts):
         return [e.value for e in node.elts]
@@ -265,6 +281,17 @@ def check_fn(run, prog, fname):
         elif isinstance(st, ast.AnnAssign) and isinstance(st.target, ast.Name) and st.value is not None:
             il = int_list(st.value)
             aff.env[st.target.id] = il if il is not None else aff.ev(st.value)
+        elif isinstance(st, ast.If) and wrapper_branch(st, fname, data):
+            # a type-normalising wrapper branch: `if not isinstance(data, bytes): return f(bytes(data), ...)`.  It computes the same function iff
+            # every other parameter is forwarded unchanged (then the claim follows from the main path by one unfolding)
+            call = st.body[0].value
+            missing = []
+            for i, pname in enumerate(params[1:], start=1):
+                passed = call.args[i] if i < len(call.args) else next((k.value for k in call.keywords if k.arg == pname), None)
+                if not (isinstance(passed, ast.Name) and passed.id == pname):
+                    missing.append(pname)
+            run.check(not missing, 'O3b', f'{fname}.output' if missing else f'{fname}.wrapper-branch',
+                      f'the branch `{ast.unparse(st.test)[:50]}` re-enters {fname} ' + (f'without forwarding {missing}: the result ignores the requested {", ".join(missing)}' if missing else 'forwarding every parameter'), where)
         else:
             raise AnalysisError(f'{fname}: unsupported statement before the loop: {ast.unparse(st)[:60]}')
     # ---- O1 tables
